@@ -377,6 +377,8 @@ func genC11(r *Runner) {
 			cases = append(cases, one(l3, 2, "inconclusive-and-timeout-then-crl"))
 		}
 	}
+	// distribution points that are not plain http: they are distribution points all the same (the CRL stage is due, and fails)
+	cases = append(cases, crlSchemeFaultCases([][]string{nil, {"unknown"}, {"http-500"}, {"timeout"}, {"good"}, {"revoked"}})...)
 	// chains of 2..4 certificates, each with its own sources
 	rng := newRand(11)
 	nMulti := 300
